@@ -3,6 +3,8 @@ C19 helper lemmas, part 2: what `step` does on a blank line, a header line and a
 well-formed record.
 -/
 import Hts.Lemmas.FaiScan
+set_option linter.unusedVariables false
+set_option linter.unusedSimpArgs false
 namespace Hts.Lemmas.Fai
 open Hts.Model.Fai
 open Hts.Spec.Fasta (isGraphic isBase isDescByte isBlankByte)
